@@ -183,7 +183,7 @@ ADDED = {
     "C11": " @string keys and bare values include BibTeX macro names with '-', ':' and '.'; structured families: a defined reference after n <= 12 undefined ones in one entry, up to 40 references per entry, month / journal / crossref field keys with month-named macros.",
     "C13": " The middleware sub-check includes entries that repeat a name-field key (each occurrence split on its own).",
     "C17": " Histories: for 2-3 fields (and at random) each case is repeated on an entry that went through earlier in-place field middlewares and whose field list was then put back (sort, edit, sort); every input Field object keeps its value.",
-    "C18": " Typed libraries include hand-built blocks and fields without start line / raw text, also on the failure paths; identifier-like values (DOI, ISBN, arXiv) under the field keys that carry them; an entry whose only failing string is its 13th.",
+    "C18": " Typed libraries include hand-built blocks and fields without start line / raw text, also on the failure paths; identifier-like values (DOI, ISBN, arXiv) under the field keys that carry them; an entry whose only failing string is its 13th; values on which the shipped default decoder itself gives up (macros without their arguments) are contained under every decoder option.",
     "C19": " The Field handed to set_field (half of them without a start line) is compared with a snapshot taken before the call.",
     "C20": " Stack arguments are handed over as list / tuple / one-shot iterator / generator / deque (annotated Iterable[Middleware]); a list the caller handed over holds the same objects afterwards; block probes also return deque / dict-values collections and sized / iterable subclasses of the model classes.",
 }
@@ -230,7 +230,7 @@ def main():
             )
         ],
         checks=checks,
-        notes="History independence: for part of the cases of C10-C13, C15-C18 the middleware instance has already transformed an unrelated library, a variant of the case's own library (other letter case / blanks), or - in place - the very library whose content is then restored (libgen.maybe_preuse). Runner: ./check <id> --tier quick|thorough ; VERIF_SEED and VERIF_TIER honoured; exit 0/1/2 as described in DESIGN.md 2.4. Size boundaries: deterministic large cases (documents of 130-4200 blocks, entries of 1100 fields, 1100 nested braces, name lists of 4200 persons, histories of 1100 operations; evidence class large-*). Known findings: /verif/known_findings.json. VERIF_REPO=<dir> points the checks at a scratch copy of the repository (used only for sensitivity runs; default /repo).",
+        notes="Equivalent spellings: middlewares are constructed, by a hash of the case, with options left out / documented defaults passed explicitly / leading arguments by position (libgen.construct). History independence: for part of the cases of C10-C13, C15-C18 the middleware instance has already transformed an unrelated library, a variant of the case's own library (other letter case / blanks), or - in place - the very library whose content is then restored (libgen.maybe_preuse). Runner: ./check <id> --tier quick|thorough ; VERIF_SEED and VERIF_TIER honoured; exit 0/1/2 as described in DESIGN.md 2.4. Size boundaries: deterministic large cases (documents of 130-4200 blocks, entries of 1100 fields, 1100 nested braces, name lists of 4200 persons, histories of 1100 operations; evidence class large-*). Known findings: /verif/known_findings.json. VERIF_REPO=<dir> points the checks at a scratch copy of the repository (used only for sensitivity runs; default /repo).",
         not_applicable=[dict(property_id=p, reason=NOT_YET) for p in ALL if p not in CHECKS],
     )
     path = os.path.join(HERE, "MANIFEST.json")
